@@ -37,6 +37,8 @@ def variant(vseed):
         "observer_type": r.choice(["CON", "NON"]),
         "ack_delay": r.choice([0.0, 0.3]),
         "iter_consumer": r.random() < 0.5,
+        "justborn": True,
+        "cancel_one": r.choice([None, "separate", "blockwise", "blockwise"]),
     }
 
 
@@ -123,7 +125,7 @@ def run(v, seed, shutdown_at):
         recs = []
 
         def track(name, rq):
-            rec = {"name": name, "done": None, "obs_end": None, "obs_items": 0}
+            rec = {"name": name, "done": None, "obs_end": None, "obs_items": 0, "rq": rq}
             rq.response.add_done_callback(lambda f: rec.update(done=(loop.time(), None if f.cancelled() else f.exception())))
             recs.append(rec)
             return rec
@@ -208,6 +210,18 @@ def run(v, seed, shutdown_at):
             info["unfinished_before"] = [r["name"] for r in recs if r["done"] is None]
             info["t_call"] = loop.time()
             info["log_mark"] = len(net.log)
+            # requests born in the very step in which shutdown is called: their processing task has not run yet
+            if v.get("justborn", True):
+                for api in (False, True):
+                    jb = ctx.request(aiocoap.Message(code=aiocoap.GET, uri="coap://10.0.0.11/justborn"), handle_blockwise=api)
+                    track("justborn-%s" % ("blockwise" if api else "raw"), jb)
+                    info["unfinished_before"].append("justborn-%s" % ("blockwise" if api else "raw"))
+            # the application gives up on one outstanding request in the same step
+            if v.get("cancel_one"):
+                victim = [r for r in recs if r["name"] == v["cancel_one"] and r["done"] is None]
+                if victim:
+                    victim[0]["rq"].response.cancel()
+                    info["cancelled"] = v["cancel_one"]
             await ctx.shutdown()
             info["t_ret"] = loop.time()
             info["log_mark_ret"] = len(net.log)
@@ -227,6 +241,8 @@ def run(v, seed, shutdown_at):
             info["late"] = late
             await asyncio.sleep(500.0)
         info["handlers"] = list(hlog)
+        for r_ in recs:
+            r_.pop("rq", None)
         box.update(net=net, X=X, recs=recs, other=other_recs, info=info, obs_count=obsres.count)
         if ctask is not None and not ctask.done():
             ctask.cancel()
@@ -283,6 +299,8 @@ def judge(v, res, box, when, rep, case, T):
             if exc is None:
                 if t_done > t_call + 1e-9:
                     rep.count("completed_during_shutdown")
+            elif info.get("cancelled") == r["name"]:
+                pass  # cancelled by the application itself just before shutdown
             elif not isinstance(exc, error.Error):
                 rep.violation("request-failed-with-non-library-error/%s/%s" % (r["name"].split("-")[0], type(exc).__name__), "an outstanding request was failed with an exception outside the library's error hierarchy at shutdown", wit(exc=repr(exc)), case)
         if r["name"] == "observe" and r["done"][1] is None:
